@@ -297,6 +297,8 @@ class FnTranslator:
                 q = "extern::" + name
                 self.calls.add(q)
                 return "(ECall %s %s)" % (cs(q), clist([self.expr(e[1])] + [self.expr(a) for a in e[3:]]))
+            if name in getattr(self, "transparent_methods", ()) and len(e) == 3:
+                return "(ECall \"into\" [%s])" % self.expr(e[1])
             if name in self.builder_methods:
                 return "(ECall %s %s)" % (cs(name), clist([self.expr(e[1])] + [self.expr(a) for a in e[3:]]))
             if name in self.own_methods:
@@ -648,6 +650,30 @@ def translate_mtgen():
                                           "extern::parse_instantiate_response_data"})
 
 
+def translate_mtmethods():
+    """The four kinds of GENERATED proxy method (contract/mt.rs emit_mt_method_definition), for every contract and method:
+    the message constructor `Api::<Kind>::<method>(args)` is the constructor value `<Kind>Msg::of [args]`; the chain's
+    query_wasm_smart / wasm_sudo are `extern::..` calls; ExecProxy::new / MigrateProxy::new / App::app_mut are the
+    translated run-time library."""
+    from . import tmpl_translate, translate
+    _, templates, _ = translate.fetch_tables()
+    path = tmpl_translate.proxy_methods_source(templates)
+    kv = fetch_ast(path)
+
+    def setup(t):
+        t.interior = True
+        t.externals = {"query_wasm_smart", "wasm_sudo"}
+        t.own_methods = {"app_mut": "App::app_mut"}
+        t.builder_methods = set()
+        t.transparent_methods = {"querier"}          # App::querier(): the querier of the chain inside the wrapper
+    FOREIGN.update({"ApiT::KindMsg::exec_method": "ExecMsg::of", "ApiT::KindMsg::query_method": "QueryMsg::of",
+                    "ApiT::KindMsg::sudo_method": "SudoMsg::of", "ApiT::KindMsg::new": "MigrateMsg::new"})
+    wanted = {"ProxyT": ["exec_method", "query_method", "sudo_method", "migrate_method"]}
+    return translate_methods(path, wanted, setup=setup, kv=kv,
+                             extra_known={"downcast_error", "App::app_mut", "ExecProxy::new", "MigrateProxy::new",
+                                          "extern::query_wasm_smart", "extern::wasm_sudo"})
+
+
 RESP_WANTED = {"SubMsg": ["into_msg"], "Response": ["into_response"]}
 
 
@@ -708,6 +734,13 @@ def generate():
             raise
         mtgen, _ = [], errors.append("generated instantiate proxy (contract/mt.rs templates): %s" % e)
 
+    try:
+        mtmeth = translate_mtmethods()
+    except Exception as e:
+        if type(e).__name__ != "TranslateError":
+            raise
+        mtmeth, _ = [], errors.append("generated proxy methods (contract/mt.rs templates): %s" % e)
+
     def prog(fns):
         return "  [ " + ";\n    ".join(fns) + " ]." if fns else "  []."
     text = "\n".join([
@@ -727,6 +760,8 @@ def generate():
         "Definition mt_program : program :=", prog(mt), "",
         "(* GENERATED code, for every contract: the instantiate proxy of the multitest helpers (templates of contract/mt.rs) *)",
         "Definition mtgen_fns : program :=", prog(mtgen), "",
+        "(* GENERATED code, for every contract and method: the exec / query / sudo / migrate proxy methods (one symbolic argument) *)",
+        "Definition mtmeth_fns : program :=", prog(mtmeth), "",
         "(* sylvia/src/into_response.rs: IntoMsg / IntoResponse; `enabled_features` = the cargo features switched on *)",
         "Definition resp_program (enabled_features : list string) : program :=", prog(resp), ""])
     return text, errors
